@@ -25,6 +25,12 @@ CLAIMED['C01'] = dict(
     text='Partial by design: decides three families of necessary conditions that hold or fail for every input at once, in all three documented window configurations (default, IGZIP_HIST_SIZE=8192, LONGER_HUFFTABLE): (1) every cell of the built-in level-0 Huffman tables and of the ICF fixed table equals the canonical code of the table\'s own stored deflate header / the RFC fixed code, with the shift/mask read from the consumers\' IR; (2) RFC 1951 constant tables, C and asm copies; (3) every FIELD/equ offset and every same-named integer constant agrees between the assembler and the C compiler for the deflate data structures, TMP-state enum arithmetic, wrapper/stored-block constants. That emitted streams decode to the input (match finders, state machine, bit packing) is NOT decided.',
     note='Trusts clang/nasm constant evaluation and the checker\'s RFC 1951 reference (tools/rfc1951.py).')
 
+CLAIMED['C02'] = dict(
+    category='other', design_ref='DESIGN.md section 3, C02',
+    technique='static analysis: exact evaluation of the pre-generated inflate lookup-table initialisers against canonical Huffman decoding (RFC 1951) of the code each table is installed for; compiler/assembler constant and layout mirror',
+    text='Partial by design: (1) every cell of static_inflate.h\'s four lookup tables is re-decoded by an independent canonical-code reference for the code it is installed for - the RFC fixed code, and the header stored in this configuration\'s hufftables_default (what header_matches_pregen compares the input with) - in the default, IGZIP_HIST_SIZE=8192 and LONGER_HUFFTABLE builds: symbols incl. packed multi-literal cells, consumed bit counts, long-code redirects, invalid markers; where header_matches_pregen is compiled to never match, the pregen tables carry no obligation; (2) RFC length/distance tables in C and asm and the hard-coded offsets the asm decoders use into them; (3) all lookup-entry bit-layout constants, block states, status codes and struct offsets agree between igzip_inflate.c (which builds the tables) and the asm decoders (which read them). Decoding of arbitrary valid streams (dynamic table construction, decode loops) is NOT decided.',
+    note='Trusts clang/nasm constant evaluation and the checker\'s RFC 1951 reference; symbol 284 with extra value 31 may be rejected or decoded as 258 (zlib-compatible).')
+
 NOT_APPLICABLE = {
     'C07': 'quantifies over call histories and buffer schedules; resumption correctness depends on run-time counts carried in state, no structural clause beyond the state-enum mirror already checked under C01',
     'C09': 'algebraic property of run-time matrices (invertibility, products over GF(2^8)); nothing in the shape of the code decides it, and loop summarisation over symbolic (m,k) is out of reach of the analyses used',
